@@ -16,7 +16,7 @@ func newVC(eng *Engine, fi *FuncInfo, ct *Contract) *VC {
 		inlined: map[string]bool{}, assumedContracts: map[string]bool{}, callOrd: map[string]int{}, safetyOrd: map[string]int{},
 		boxFuncs: map[string]bool{}, ufuns: map[string]bool{},
 		aliasOf: map[*types.Var]ast.Expr{}, hiddenVars: map[*ast.RangeStmt]types.Object{}, capturedAssigned: map[*types.Var]bool{},
-		boxed: map[*types.Var]*types.Var{}, resultEnv: map[string]Val{}, shadow: map[*types.Var]*types.Var{}}
+		boxed: map[*types.Var]*types.Var{}, resultEnv: map[string]Val{}, shadow: map[*types.Var]*types.Var{}, usedLemmas: map[string]bool{}, rangeAsserted: map[string]bool{}}
 	vc.newEpoch("entry", "", 0, 0)
 	return vc
 }
@@ -123,6 +123,7 @@ func (vc *VC) verifyFunction() {
 			vc.noteAssumption(fmt.Sprintf("assume in %s: %s  [%s]", ct.Key, as.Src, as.Reason))
 		}
 	}
+	vc.assumeLemmas(st)
 	stmts := fi.Body.List
 	if ct != nil && ct.Options["start-at-loop"] != "" {
 		// CUT: verification starts at the given top-level loop; everything before it (typically a concurrent phase)
@@ -225,8 +226,9 @@ func (vc *VC) checkPost(st *State, vals []Val, pos token.Pos, ord int) {
 func (vc *VC) checkFrame(st *State, pos token.Pos, ord int) {
 	ct := vc.contract
 	type allow struct {
-		all  bool
-		objs []string
+		all   bool
+		objs  []string
+		conds []string // r_fr may change when one of these holds
 	}
 	allowed := map[string]*allow{}
 	ghostOK := map[string]bool{}
@@ -247,6 +249,18 @@ func (vc *VC) checkFrame(st *State, pos token.Pos, ord int) {
 			globalOK[m[7:]] = true
 			continue
 		}
+		condTerm := ""
+		if at := strings.Index(m, "@"); at >= 0 {
+			rest := m[at+1:]
+			m = m[:at]
+			if i := strings.Index(rest, "("); i > 0 && strings.HasSuffix(rest, ")") {
+				if ae, err := parseSpecExpr(rest[i+1 : len(rest)-1]); err == nil {
+					av := vc.specEval(vc.entry, vc.entry, ae, nil, nil)
+					vc.declareFun("uf_"+rest[:i], []string{"Int", "Int"}, "Bool")
+					condTerm = fmt.Sprintf("(uf_%s %s r_fr)", rest[:i], av.S)
+				}
+			}
+		}
 		k := strings.LastIndex(m, ".")
 		if k < 0 {
 			continue
@@ -256,7 +270,17 @@ func (vc *VC) checkFrame(st *State, pos token.Pos, ord int) {
 			if n, s := namedStructOf(tn.Type()); n != nil {
 				for i := 0; i < s.NumFields(); i++ {
 					if field == "*" || field == s.Field(i).Name() {
-						allowed[vc.heapKey(n, s.Field(i).Name())] = &allow{all: true}
+						key := vc.heapKey(n, s.Field(i).Name())
+						a := allowed[key]
+						if a == nil {
+							a = &allow{}
+							allowed[key] = a
+						}
+						if condTerm == "" {
+							a.all = true
+						} else {
+							a.conds = append(a.conds, condTerm)
+						}
 					}
 				}
 				continue
@@ -315,6 +339,9 @@ func (vc *VC) checkFrame(st *State, pos token.Pos, ord int) {
 		if a != nil {
 			for _, o := range a.objs {
 				conds = append(conds, fmt.Sprintf("(not (= r_fr %s))", o))
+			}
+			for _, ct := range a.conds {
+				conds = append(conds, "(not "+ct+")")
 			}
 		}
 		goal := fmt.Sprintf("(forall ((r_fr Int)) (=> (and %s) (= (select %s r_fr) (select %s r_fr))))", strings.Join(conds, " "), cur, old)
@@ -508,4 +535,133 @@ func (vc *VC) findTopLevelLoop(stmts []ast.Stmt, n int) (int, int) {
 		})
 	}
 	return -1, 0
+}
+
+
+// assumeLemmas: instantiate the lemmas named in `uses` for the current state: parameters that resolve to names of the function
+// are bound to them, the others are universally quantified.
+func (vc *VC) assumeLemmas(st *State) {
+	if vc.contract == nil {
+		return
+	}
+	for _, use := range vc.contract.Uses {
+		name := use
+		var argSrc []string
+		if i := strings.Index(use, "("); i > 0 && strings.HasSuffix(use, ")") {
+			name = strings.TrimSpace(use[:i])
+			argSrc = splitTopLevel(use[i+1 : len(use)-1])
+		}
+		var lm *Lemma
+		for _, l := range vc.eng.specs.Lemmas {
+			if l.Name == name {
+				lm = l
+			}
+		}
+		if lm == nil {
+			vc.unsupportedf(token.NoPos, "uses: unknown lemma %s", name)
+			continue
+		}
+		env := map[string]Val{}
+		var qvars []SQVar
+		c := &specCtx{vc: vc, cur: st, old: vc.entry, bound: map[string]Val{}}
+		for i, p := range lm.Params {
+			if i < len(argSrc) {
+				ae, err := parseSpecExpr(strings.TrimSpace(argSrc[i]))
+				if err != nil {
+					vc.unsupportedf(token.NoPos, "uses %s: %v", use, err)
+					continue
+				}
+				env[p.Name] = c.eval(ae)
+				continue
+			}
+			if argSrc != nil {
+				qvars = append(qvars, p)
+				continue
+			}
+			if v, ok := c.localByName(p.Name); ok {
+				env[p.Name] = v
+			} else {
+				qvars = append(qvars, p)
+			}
+		}
+		var body SExpr
+		for _, en := range lm.Ensures {
+			if body == nil {
+				body = en.Expr
+			} else {
+				body = &SBin{Op: "&&", L: body, R: en.Expr}
+			}
+		}
+		// premises that do not mention the quantified parameters are established once, outside the quantifier
+		qnames := map[string]bool{}
+		for _, q := range qvars {
+			qnames[q.Name] = true
+		}
+		var ground, dependent []SExpr
+		for _, rq := range lm.Requires {
+			for _, cj := range flattenAnd(rq.Expr) {
+				if mentionsAny(cj, qnames) {
+					dependent = append(dependent, cj)
+				} else {
+					ground = append(ground, cj)
+				}
+			}
+		}
+		for i := len(dependent) - 1; i >= 0; i-- {
+			body = &SBin{Op: "==>", L: dependent[i], R: body}
+		}
+		if len(qvars) > 0 {
+			body = &SQuant{Forall: true, Vars: qvars, Body: body, Triggers: lm.Triggers}
+		}
+		c2 := &specCtx{vc: vc, cur: st, old: vc.entry, bound: env}
+		v := c2.eval(body)
+		if v.Sort != "Bool" {
+			continue
+		}
+		fact := v.S
+		if len(ground) > 0 {
+			var gs []string
+			for _, g := range ground {
+				c3 := &specCtx{vc: vc, cur: st, old: vc.entry, bound: env}
+				gs = append(gs, c3.eval(g).S)
+			}
+			fact = fmt.Sprintf("(=> (and %s true) %s)", strings.Join(gs, " "), fact)
+		}
+		vc.assume(st, fact)
+		vc.usedLemmas[name] = true
+	}
+}
+
+
+func flattenAnd(e SExpr) []SExpr {
+	if b, ok := e.(*SBin); ok && b.Op == "&&" {
+		return append(flattenAnd(b.L), flattenAnd(b.R)...)
+	}
+	return []SExpr{e}
+}
+
+func mentionsAny(e SExpr, names map[string]bool) bool {
+	switch x := e.(type) {
+	case *SIdent:
+		return names[x.Name]
+	case *SBin:
+		return mentionsAny(x.L, names) || mentionsAny(x.R, names)
+	case *SUn:
+		return mentionsAny(x.X, names)
+	case *SCall:
+		for _, a := range x.Args {
+			if mentionsAny(a, names) {
+				return true
+			}
+		}
+	case *SSel:
+		return mentionsAny(x.X, names)
+	case *SIndex:
+		return mentionsAny(x.X, names) || mentionsAny(x.I, names)
+	case *SQuant:
+		return mentionsAny(x.Body, names)
+	case *STypeAssert:
+		return mentionsAny(x.X, names)
+	}
+	return false
 }
